@@ -57,8 +57,9 @@ confirmed on the real binary, see `Lemmas/DocAcceptFindings.lean`).  Every such 
 condition on ONE lexeme, and the grammar takes these conditions as a parameter `D : Dialect`:
 `Dialect.documented` imposes none (the grammar as documented), `Dialect.accepted` imposes exactly those needed.
 * `numOk`  — a number is within `rust_decimal`'s range (at most 28 decimal places, mantissa below 2^96);
-* `postingAccountOk` — the account of a posting contains no `;` and does not begin with `*` or `!`
-  (`  A;c  1 USD (a⏎b)⏎`: the parser ends the account at `;`; `  *⏎`: the parser reads a clear mark and then finds no account);
+* `postingAccountOk` — the account of a posting contains no `;` and is not just `*` or `!`
+  (`  A;c  1 USD (a⏎b)⏎`: the parser ends the account at `;`; `  *⏎`: the parser reads a clear mark and then finds no
+  account; an account such as `*A` is accepted — as the clear mark `*` and the account `A`);
 * `noteOk` — the text after the date of a transaction does not begin (after blanks and at most one clear mark) with a
   `(` that has no `)` on the same line (the parser's transaction code runs across line ends to the next `)` of the file);
 * `applyTagOk` — the tag of `apply tag` contains no form feed (the parser's tag stops at ASCII white space, which
@@ -354,7 +355,7 @@ def noteHazard (n : List Char) : Bool :=
 /-- the side conditions under which every derivable text is accepted (each is necessary: `DocAcceptFindings`) -/
 def Dialect.accepted : Dialect where
   numOk := Representable
-  postingAccountOk := fun a => !a.contains ';' && !(a.head? == some '*' || a.head? == some '!')
+  postingAccountOk := fun a => !a.contains ';' && !(a == ['*'] || a == ['!'])
   noteOk := fun n => !noteHazard n
   applyTagOk := fun t => !t.contains '\x0c'
 
